@@ -18,8 +18,11 @@ INFO = {
         "model/Search.v cert_clauses / bfs_cert_clauses / astar / bfs are the very functions the theorems of props/C05.v speak about (no transfer step)",
         "the graph given to Coq is (actions(s), next_state, -reward, is_absorbing) of the generated problem; msdm receives the same problem through its public MDP interface",
         "recording wrapper around random.Random instances inside msdm.algorithms.search (shuffle / random logged, generator stream unchanged)",
+        "mirror theorems (bfs_*, astar_*) quantify over every enumeration order `ord` and every tie-break sequence `tbs`; the mirror runs instantiate them with the recorded shuffles / draws",
     ],
-    "assumptions": ["states are the integers 0..n-1, actions are integers; edge costs are integers (floats in msdm: sums are exact)"],
+    "assumptions": ["states are the integers 0..n-1, actions are integers; edge costs are integers (floats in msdm: sums are exact)",
+                    "heuristics of the mirror model are finite integers (cost convention); +inf heuristic values are only judged by the certificate",
+                    "BFS queue / visited entries of the mirror carry a ghost depth that the control flow never reads"],
 }
 
 PRE = """From Coq Require Import List ZArith Bool.
